@@ -5,3 +5,5 @@ package main
 // verification hooks, disabled in normal builds (see verif_on.go)
 
 func verifTraceRound(res Resolver, rels []UniRel) {}
+
+func verifTracePS(kind string, ps ParseState) {}
